@@ -15,10 +15,11 @@ BREAK_CPS = [10, 11, 12, 13, 0x85, 0x2028, 0x2029]
 FS_CPS = (0x1c, 0x1d, 0x1e)
 # small-scope alphabet for texts: ordinary char, space, digits of the historic '\x2028' typo, every break
 SL_ALPHABET = [ord('a'), ord(' '), ord('2'), ord('8'), ord('9')] + BREAK_CPS
+SL_SMALL = [ord('a'), ord(' '), ord('2'), ord('8'), 10, 13, 0x85, 0x2028]
 SL_EXTRA = [0x1c, 0x1d, 0x1e, 0x1f, 0xe9, 0x65e5, 0x1f600, ord('0'), 0x2027, 0x202a, 0x84, 0x86, 9]
 # file symbols: units that keep a text-mode file decodable
 E_ACUTE = b'\xc3\xa9'
-RL_UNITS = [b'a', E_ACUTE, b'\n', b'\r']
+RL_UNITS = [b'a', E_ACUTE, b'\n', b'\r\n', b'\r']
 RL_BYTES = [b'a', b'\xc3', b'\xa9', b'\n', b'\r']
 # JSONL byte alphabet: on contents over these bytes the driver's mini JSON recogniser and json.loads
 # are the same function (digits, '-', '"', 'x', space, tab, LF, CR, VT, braces, brackets, C3, A9)
@@ -60,10 +61,10 @@ class C19(Property):
     QUICK_BUDGET_S = 45
     THOROUGH_BUDGET_S = 700
     RULE = ('three kinds of case. sl: a text (list of code points) given to iter_splitlines; exhaustive over '
-            '12 symbols (a, space, 2, 8, 9, each of the 7 line-break characters) up to length 4 (5 thorough), then '
+            '12 symbols (a, space, 2, 8, 9, each of the 7 line-break characters) up to length 4 (5 thorough), 8 symbols at length 5 (6 thorough), then '
             'random longer texts incl. other Unicode; non-trivial = the text contains a line break. rl: file '
             'content x blocksize x mode (binary/text, BytesIO or real file) given to reverse_iter_lines; '
-            'exhaustive over the units a, e-acute (2 bytes), LF, CR up to 5 units (6 thorough) x every blocksize '
+            'exhaustive over the units a, e-acute (2 bytes), LF, CRLF, CR up to 5 units (6 thorough) x every blocksize '
             '1..len+1, binary also over split multi-byte sequences; non-trivial = at least 2 lines and more than '
             'one block. jl: a JSON Lines file (valid / blank / corrupt lines, LF or CRLF) read by JSONLIterator '
             'forward and reverse, ignore_errors on/off, binary/text mode; small files exhaustively over a token '
@@ -83,6 +84,7 @@ class C19(Property):
         super().__init__(tier, seed)
         self._tmp = None
         self._nt = False
+        self._timeouts = 0
 
     # ------------------------------------------------------------------ translator
     def regen(self):
@@ -155,7 +157,9 @@ class C19(Property):
         for n in range(0, (5 if th else 4) + 1):
             for t in itertools.product(SL_ALPHABET, repeat=n):
                 yield {'k': 'sl', 't': list(t)}
-        for _ in range(40000 if th else 3000):
+        for t in itertools.product(SL_SMALL, repeat=(6 if th else 5)):
+            yield {'k': 'sl', 't': list(t)}
+        for _ in range(40000 if th else 4000):
             yield self.random_sl(rng)
         # ---- rl: exhaustive small scope x every blocksize x binary/text
         i = 0
@@ -193,9 +197,14 @@ class C19(Property):
 
     def deep_cases(self, budget_s):
         rng = self.rng
-        for n in range(0, 6):
-            for t in itertools.product(SL_ALPHABET, repeat=n):
+        # every character the current pattern mentions joins the alphabet
+        extra = sorted({c for a in (getattr(self, '_alts', None) or []) for c in a} - set(SL_ALPHABET))
+        alpha = SL_ALPHABET + extra[:6]
+        for n in range(0, 5):
+            for t in itertools.product(alpha, repeat=n):
                 yield {'k': 'sl', 't': list(t)}
+        for t in itertools.product(SL_ALPHABET, repeat=5):
+            yield {'k': 'sl', 't': list(t)}
         for c in self.small_jsonl(2):
             for ign in (1, 0):
                 yield {'k': 'jl', 'c': hx(c), 'mode': 'b', 'ign': ign}
@@ -458,7 +467,9 @@ class C19(Property):
     def impl(self, case):
         k = case['k']
         try:
-            with time_limit(10):
+            # a mutated implementation may loop forever: 5 s per case, and once that happened
+            # three times (never on terminating code) 0.25 s for the rest of the run
+            with time_limit(5 if self._timeouts < 3 else 0.25):
                 if k == 'sl':
                     from boltons.strutils import iter_splitlines
                     text = ''.join(chr(c) for c in case['t'])
@@ -475,6 +486,7 @@ class C19(Property):
                     ro, re_ = self.drain_jsonl(c, case['mode'], case['ign'], True)
                     return {'fwd': fo, 'fexc': fe, 'rev': ro, 'rexc': re_}
         except CaseTimeout:
+            self._timeouts += 1
             return {'exc': 'CaseTimeout'}
         except Exception as e:
             return {'exc': exc_name(e)}
